@@ -47,6 +47,19 @@ for p in sys.argv[3:]:
 '''
 
 
+def fixture_roster(consts):
+    """player records that carry instances of the two fixture classes (real rosters of 0.8.9+ do): unpickling them in the installed copy needs
+    <package>/fixtures on sys.path, wherever the command-line script itself was installed"""
+    import sys
+    fx = os.path.join(common.REPO, 'replay_unpack', 'fixtures')          # only to BUILD the input: the harness must be able to pickle the two classes
+    sys.path.append(fx)
+    try: import CamouflageInfo, PlayerModeDef
+    finally: sys.path.remove(fx)
+    keys = sorted(k for k in consts.id_property_map.values() if k not in ('id', 'name', 'shipId', 'teamId', 'avatarId'))
+    pm = PlayerModeDef.PlayerMode(); pm.__dict__.update(playerModeType=1, observedTeamId=2)
+    return {keys[0]: CamouflageInfo.CamouflageInfo(5, 6), keys[1]: pm} if len(keys) >= 2 else {}
+
+
 def run(ctx):
     ctx.rule = ('static: every file of the working tree (directory trie regenerated per run) - the instance theorem says every file parsing can need that setup() '
                 'does not ship is a listed finding; translation validation of the packaging model: a wheel is really built offline and its name list must equal '
@@ -106,10 +119,12 @@ def run(ctx):
         files = []
         wv = battle.wows_versions(); picks = wv if not q else [wv[i] for i in range(0, len(wv), 10)]
         for v in picks:
-            p = os.path.join(tmp, 'w-%s.wowsreplay' % v); battle.write_wows(p, v, random.Random(rng.randrange(10 ** 9)), join=False); files.append(p)
+            p = os.path.join(tmp, 'w-%s.wowsreplay' % v); battle.write_wows(p, v, random.Random(rng.randrange(10 ** 9)), join=False, roster_extra=fixture_roster); files.append(p)
         for game, v in (('wot', '1_10_0'), ('wowp', '2_1_17'), ('wowp', '1_7_5')):
             p = os.path.join(tmp, '%s-%s.%s' % (game, v, {'wot': 'wotreplay', 'wowp': 'wowpreplay'}[game])); battle.write_simple(p, game, v, random.Random(1)); files.append(p)
         files += [f for f in recordings.list_recordings() if os.path.getsize(f) < (800000 if q else 10 ** 9)][: (4 if q else 100)]
+        newest = sorted((f for f in recordings.list_recordings() if f.endswith('.wowsreplay')), key=lambda f: [int(x) if x.isdigit() else 0 for x in os.path.basename(os.path.dirname(f)).split('_')])[-1]
+        if newest not in files: files.append(newest)
         env = dict(os.environ, PYTHONHASHSEED='0'); env.pop('PYTHONPATH', None)
         wk = os.path.join(tmp, 'worker.py'); open(wk, 'w').write(WORKER)
         pr = subprocess.run([common.PY, wk, inst, common.VERIF] + files, capture_output=True, text=True, timeout=1800, env=env, cwd=tmp)
